@@ -135,14 +135,20 @@ def nudged(s3, rng, k=4):
                                              if (id(res), a.name) in moves else (a.x, a.y, a.z, a.occupancy)))
 
 
-def to_table(s3):
+STANDARD = {"A", "C", "G", "U", "DA", "DC", "DG", "DT"}
+
+
+def to_table(s3, het_every=0):
+    """the atoms as rows of an atom table; modified nucleotides are HETATM records, as the PDB writes them (and, with het_every = k,
+    every k-th residue as well: the record type is presentation, both formats carry it and neither reader may drop a residue for it)"""
     t = []
     serial = 1
-    for r in s3.residues:
+    for i_, r in enumerate(s3.residues):
+        rt = "HETATM" if (r.name not in STANDARD or (het_every and i_ % het_every == 1)) else "ATOM"
         for a in r.atoms:
             if len(a.name) > 4 or len(r.name) > 3 or len(r.chain) != 1:
                 return None
-            t.append({"record_type": "ATOM", "name": a.name, "altLoc": "", "resName": r.name, "chainID": r.chain, "resSeq": r.number, "iCode": r.icode or "",
+            t.append({"record_type": rt, "name": a.name, "altLoc": "", "resName": r.name, "chainID": r.chain, "resSeq": r.number, "iCode": r.icode or "",
                       "element": genatoms.element_of(a.name), "charge": "", "occ100": 100, "het": False, "model": 1, "serial": serial,
                       "x1000": int(round(a.x * 1000)), "y1000": int(round(a.y * 1000)), "z1000": int(round(a.z * 1000)), "b100": 0})
             serial += 1
@@ -271,8 +277,10 @@ def run(ctx):
                                       {"structure": name, "base": bkind, "shift": shift, "format": fmt,
                                        "in_memory": {k: refm[k] for k in (diff or diff0)}, "from_file": {k: gotm[k] for k in (diff or diff0)}})
             # (v) PDB vs mmCIF of the same atoms
-            table = to_table(base)
-            if table:
+            for het_every in (0, 3):
+                table = to_table(base, het_every)
+                if not table:
+                    continue
                 outs = {}
                 for fmt in ("pdb", "cif"):
                     path = os.path.join(d, "t." + fmt)
@@ -281,12 +289,12 @@ def run(ctx):
                         s3f = read_3d_structure(f)
                     outs[fmt] = (full(s3f), min_margin(s3f))
                 decided = min(outs["pdb"][1], outs["cif"][1]) >= 1e-6
-                ctx.count((name, bkind, "format"), nonempty and decided, "format")
+                ctx.count((name, bkind, "format", het_every), nonempty and decided, "format" if not het_every else "format+hetatm")
                 if decided:
                     diff = [k for k in outs["pdb"][0] if outs["pdb"][0][k] != outs["cif"][0][k]]
                     if diff:
                         ctx.violation(f"annotation differs between the PDB and the mmCIF serialisation of the same atoms: {diff}",
-                                      {"structure": name, "base": bkind, "pdb": {k: outs['pdb'][0][k] for k in diff}, "cif": {k: outs['cif'][0][k] for k in diff}})
+                                      {"structure": name, "base": bkind, "hetatm_every": het_every, "pdb": {k: outs['pdb'][0][k] for k in diff}, "cif": {k: outs['cif'][0][k] for k in diff}})
                 else:
                     excluded += 1
             if len(ctx.coverage["samples"]) < 2:
